@@ -100,7 +100,10 @@ def case_map(m, c, which):
         if c < 128:
             return [to_ascii_lower(c) if which == 'lower' else to_ascii_upper(c)]
         if c not in TABLE:
-            raise Unsupported(f'char U+{c:04X} outside the sample set')
+            # a concrete char outside the sample read from the native build: Python's Unicode tables (same full case mappings for the
+            # characters both know; every counterexample is replayed natively before it is reported)
+            t = chr(c).lower() if which == 'lower' else chr(c).upper()
+            return [ord(x) for x in t]
         return list(TABLE[c][key])
     if m.ctx.decide(z3.ULT(c, 128)):
         return [to_ascii_lower(c) if which == 'lower' else to_ascii_upper(c)]
